@@ -511,7 +511,10 @@ func configs(thorough bool) []Cfg {
 	// the current tree this reports two-winners/direct-split and release/no-abort-after-accept/direct-split
 	// (candidate finding: the stale-message filter and receiveInternal are not one critical section; witnesses
 	// in replays/C11/candidate-x-*.json).  Not part of the tiers until the coordinator decides how to record it.
-	if os.Getenv("VERIF_C11_SPLIT") != "" && splitReceiveSourceOK() {
+	// Since fix 11ec705e (filter and handling are one critical section) the source no longer matches the
+	// transcription and the shape is skipped on the current tree; it runs in the thorough tier (or with
+	// VERIF_C11_SPLIT=1) on a tree whose receiveFiltered still reads as two sections (the pre-fix mutant).
+	if (thorough || os.Getenv("VERIF_C11_SPLIT") != "") && splitReceiveSourceOK() {
 		shapes = append(shapes, shape{"rmw|rmw|-", 2, 1, true, "direct", "lazy,split,sibling"})
 	}
 	var out []Cfg
@@ -557,7 +560,19 @@ func splitReceiveSourceOK() bool {
 	if repo == "" {
 		repo = "/repo"
 	}
-	b, err := os.ReadFile(filepath.Join(repo, "distsys", "resources", "twopc.go"))
+	path := filepath.Join(repo, "distsys", "resources", "twopc.go")
+	// a --mutant run builds from an overlay: read the file the build really used
+	if ov := os.Getenv("VERIF_OVERLAY"); ov != "" {
+		if ob, err := os.ReadFile(ov); err == nil {
+			var o struct{ Replace map[string]string }
+			if json.Unmarshal(ob, &o) == nil {
+				if r, ok := o.Replace[path]; ok && r != "" {
+					path = r
+				}
+			}
+		}
+	}
+	b, err := os.ReadFile(path)
 	if err != nil {
 		return false
 	}
